@@ -96,7 +96,9 @@ def audit(prop):
             cur = m.group(1); res["axioms"][cur] = []; continue
         if cur is None:
             continue
-        m = re.match(r"^([A-Za-z_][A-Za-z0-9_.']*)\s*:", line)
+        # an axiom is listed as "name : type" or, when the type is long, as "name" alone with the type
+        # on the following (indented) lines
+        m = re.match(r"^([A-Za-z_][A-Za-z0-9_.']*)\s*(:|$)", line)
         if m and not line.startswith(" ") and m.group(1) != "Axioms":   # "Axioms:" is the header line
             res["axioms"][cur].append(m.group(1))
     bad = []
